@@ -41,15 +41,44 @@ template <class C> static json pathsJ(const C &paths) {
     return a;
 }
 
+template <class G> void addRandomEdges(G &g, std::mt19937 &rng, size_t n, unsigned percent);
+
+// The shared object is the result of a HISTORY (insertions, removals of every kind, relabelling,
+// a resize, more insertions), not only of insertions: lazily maintained state would be stale.
 template <class G> void buildRandom(G &g, unsigned seed, size_t n) {
     using I = GInfo<G>;
     std::mt19937 rng(seed);
     g.resize(n);
+    addRandomEdges(g, rng, n, 30);
+    std::vector<Edge> es;
+    for (auto e : g.edges())
+        es.push_back(e);
+    for (size_t k = 0; k < es.size(); k += 4)
+        g.removeEdge(es[k].first, es[k].second);
+    for (size_t k = 1; k < es.size(); k += 5) {
+        if (!g.hasEdge(es[k].first, es[k].second))
+            continue;
+        if constexpr (I::kind == KindTag::Labeled) {
+            if constexpr (!std::is_same<typename I::Label, NoLabel>::value)
+                g.setEdgeLabel(es[k].first, es[k].second, Lab<G>::enc((int)(rng() % 3)));
+        } else if constexpr (I::kind == KindTag::Multi)
+            g.setEdgeMultiplicity(es[k].first, es[k].second, 1 + rng() % 4);
+        else
+            g.setEdgeWeight(es[k].first, es[k].second, (double)(rng() % 5));
+    }
+    g.removeVertexFromEdgeList((VertexIndex)(n / 2));
+    g.resize(n + 2);
+    addRandomEdges(g, rng, n + 2, 8);
+    g.removeEdge(0, 0);
+}
+
+template <class G> void addRandomEdges(G &g, std::mt19937 &rng, size_t n, unsigned percent) {
+    using I = GInfo<G>;
     for (VertexIndex i = 0; i < n; ++i)
         for (VertexIndex j = 0; j < n; ++j) {
             if (!I::directed && i > j)
                 continue;
-            if (rng() % 100 < 30) {
+            if (rng() % 100 < percent) {
                 if constexpr (I::kind == KindTag::Labeled)
                     g.addEdge(i, j, Lab<G>::enc((int)(rng() % 3)));
                 else if constexpr (I::kind == KindTag::Multi)
